@@ -250,6 +250,31 @@ def run(ctx: Ctx):
                             ev.append(e)
                             meta.append(case)
             # multi-valued order
+            # a first value that is empty / zero / false must not be lost when the name is added again
+            for n, first, rest in (("COMMENT", "", ["b", "c"]), ("X-COUNT", 0, [5, 0]), ("DESCRIPTION", "", [""])):
+                comp = Event()
+                vals = [first] + rest
+                for v in vals:
+                    comp.add(n, v if not isinstance(v, int) else vInt(v))
+                got = type(comp).from_ical(comp.to_ical()).get(n)
+                ctx.evaluations += 1
+                back = [str(x) for x in got] if isinstance(got, list) else [str(got)]
+                if back != [str(v) for v in vals]:
+                    ctx.fail("P:C02:multi-valued-order", {"n": n, "values": vals, "provider": prov}, back, [str(v) for v in vals])
+            # early years: four-digit, zero-padded year fields
+            for n, v in (("DTSTART", date(987, 6, 5)), ("DTSTART", datetime(45, 1, 2, 3, 4, 5)), ("EXDATE", [date(999, 12, 31)]),
+                         ("RDATE", [(datetime(101, 1, 1, 0, 0, tzinfo=UTC), timedelta(hours=1))]), ("DTSTAMP", datetime(800, 2, 29, 1, 2, 3, tzinfo=UTC))):
+                comp = Event()
+                comp.add(n, v)
+                ctx.evaluations += 1
+                try:
+                    got = Event.from_ical(comp.to_ical()).get(n)
+                    ok = got is not None and (same_dt(v, got.dt) if not isinstance(v, list) else
+                                              (len(got.dts) == 1 and same_dt(v[0], got.dts[0].dt)))
+                except Exception as x:   # noqa: BLE001
+                    ok, got = False, type(x).__name__
+                if not ok:
+                    ctx.fail("P:C02:value-equal", {"n": n, "value": repr(v), "provider": prov, "early_year": True}, repr(got)[:120], None)
             for n, k in (("COMMENT", "text"), ("ATTENDEE", "cal-address"), ("RDATE", "dt-list-zoned"), ("EXDATE", "date-list"), ("ATTACH", "uri")):
                 comp = comp_for(n)
                 vals = []
